@@ -37,9 +37,11 @@ Check (C01_sign_outcome : forall (E : env) (LW : Laws E) msgs sk pk header e B,
 Print Assumptions C01_sign_outcome.
 
 Theorem C01_sig_codec_roundtrip : forall (E : env) (LW : Laws E) s,
+  sig_A E s <> g1_zero (PR E) -> sig_e E s <> f0 (SO E) ->
   sig_from_bytes E (sig_to_bytes E s) = Ok s /\ length (sig_to_bytes E s) = 80%nat.
 Proof. exact sig_codec_roundtrip. Qed.
 Check (C01_sig_codec_roundtrip : forall (E : env) (LW : Laws E) s,
+  sig_A E s <> g1_zero (PR E) -> sig_e E s <> f0 (SO E) ->
   sig_from_bytes E (sig_to_bytes E s) = Ok s /\ length (sig_to_bytes E s) = 80%nat).
 Print Assumptions C01_sig_codec_roundtrip.
 
